@@ -54,6 +54,8 @@ def run(ctx, rep):
     sign_distrib(rep, ctx.prog("Q"))
     obs_year(rep, ctx.prog("Q"))
     verbatim(rep, ctx.prog("Q"))
+    from ..rules_parse import minute_offset_print
+    minute_offset_print(rep, ctx.prog("Q"))
     prog = ctx.prog("Q")
     rep.notes.append("Does not decide agreement with the C library, week-number arithmetic or the %y pivot.")
     specifier_set(rep, prog)
